@@ -2292,4 +2292,631 @@ theorem run_reach : ∀ (ops : List Op) (s : Server), SInv s →
     rw [this]
     exact Reach.trans hstep hrest
 
+/-! ## reading a mutation log against a plan -/
+
+section MatchLog
+variable {μ : Type} (f : μ → Sig)
+
+theorem takeMatching_spec {s : Sig} : ∀ {l : List μ} {x : μ} {rest : List μ},
+    takeMatching f s l = some (x, rest) →
+      x ∈ l ∧ f x = s ∧ rest.length + 1 = l.length ∧ ∀ y, y ∈ l ↔ y = x ∨ y ∈ rest := by
+  intro l
+  induction l with
+  | nil => intro x rest h; simp [takeMatching] at h
+  | cons m ms ih =>
+    intro x rest h
+    simp only [takeMatching] at h
+    by_cases hm : (f m == s) = true
+    · rw [if_pos hm] at h
+      simp only [Option.some.injEq, Prod.mk.injEq] at h
+      obtain ⟨rfl, rfl⟩ := h
+      exact ⟨by simp, by simpa using hm, rfl, fun y => by simp⟩
+    · rw [if_neg hm] at h
+      cases ht : takeMatching f s ms with
+      | none => rw [ht] at h; simp at h
+      | some pr =>
+        obtain ⟨x', rest'⟩ := pr
+        rw [ht] at h
+        simp only [Option.map_some, Option.some.injEq, Prod.mk.injEq] at h
+        obtain ⟨rfl, rfl⟩ := h
+        obtain ⟨h1, h2, h3, h4⟩ := ih ht
+        refine ⟨by simp [h1], h2, by simp [h3], fun y => ?_⟩
+        simp only [List.mem_cons, h4 y]
+        constructor
+        · rintro (h | h | h)
+          · exact Or.inr (Or.inl h)
+          · exact Or.inl h
+          · exact Or.inr (Or.inr h)
+        · rintro (h | h | h)
+          · exact Or.inr (Or.inl h)
+          · exact Or.inl h
+          · exact Or.inr (Or.inr h)
+
+theorem matchLog_nil_plan : ∀ {log : List Sig} {ms : List μ} {rest : List (Bool × List μ)},
+    matchLog f [] log = some (ms, rest) → ms = [] ∧ rest = [] := by
+  intro log ms rest h
+  cases log with
+  | nil => simp only [matchLog, Option.some.injEq, Prod.mk.injEq] at h; exact ⟨h.1.symm, h.2.symm⟩
+  | cons s l => simp [matchLog, planNext] at h
+
+/-- A leading empty phase is skipped. -/
+theorem matchLog_skip_empty (b : Bool) (ps : List (Bool × List μ)) :
+    ∀ (log : List Sig) (ms : List μ) (rest : List (Bool × List μ)),
+    matchLog f ((b, []) :: ps) log = some (ms, rest) →
+      (log = [] ∧ ms = [] ∧ rest = (b, []) :: ps) ∨ matchLog f ps log = some (ms, rest) := by
+  intro log ms rest h
+  cases log with
+  | nil =>
+    simp only [matchLog, Option.some.injEq, Prod.mk.injEq] at h
+    exact Or.inl ⟨rfl, h.1.symm, h.2.symm⟩
+  | cons s l =>
+    right
+    simp only [matchLog, planNext] at h ⊢
+    exact h
+
+/-- An ordered first phase is executed in order: the mutations read are a prefix of it, or all
+of it followed by what the rest of the plan yields. -/
+theorem matchLog_ordered (ps : List (Bool × List μ)) : ∀ (ws : List μ) (log : List Sig)
+    (ms : List μ) (rest : List (Bool × List μ)),
+    matchLog f ((true, ws) :: ps) log = some (ms, rest) →
+      (∃ n, n ≤ ws.length ∧ ms = ws.take n ∧ rest = (true, ws.drop n) :: ps) ∨
+      (∃ cs log', ms = ws ++ cs ∧ matchLog f ps log' = some (cs, rest)) := by
+  intro ws
+  induction ws with
+  | nil =>
+    intro log ms rest h
+    rcases matchLog_skip_empty f true ps log ms rest h with ⟨_, rfl, rfl⟩ | h'
+    · exact Or.inl ⟨0, Nat.le_refl _, rfl, rfl⟩
+    · exact Or.inr ⟨ms, log, rfl, h'⟩
+  | cons w ws ih =>
+    intro log ms rest h
+    cases log with
+    | nil =>
+      simp only [matchLog, Option.some.injEq, Prod.mk.injEq] at h
+      exact Or.inl ⟨0, Nat.zero_le _, h.1.symm, h.2.symm⟩
+    | cons s l =>
+      simp only [matchLog, planNext] at h
+      by_cases hw : (f w == s) = true
+      · rw [if_pos hw] at h
+        simp only at h
+        cases hm : matchLog f ((true, ws) :: ps) l with
+        | none => rw [hm] at h; simp at h
+        | some pr =>
+          obtain ⟨ms', rest'⟩ := pr
+          rw [hm] at h
+          simp only [Option.map_some, Option.some.injEq, Prod.mk.injEq] at h
+          obtain ⟨rfl, rfl⟩ := h
+          rcases ih l ms' rest' hm with ⟨n, hn, rfl, rfl⟩ | ⟨cs, log', rfl, hcs⟩
+          · exact Or.inl ⟨n + 1, Nat.succ_le_succ hn, rfl, rfl⟩
+          · exact Or.inr ⟨cs, log', rfl, hcs⟩
+      · rw [if_neg hw] at h
+        simp at h
+
+/-- An unordered first phase: the mutations read are some of it (interrupted), or all of it in
+some order followed by what the rest of the plan yields. -/
+theorem matchLog_unordered (ps : List (Bool × List μ)) : ∀ (n : Nat) (pool : List μ),
+    pool.length = n → ∀ (log : List Sig) (ms : List μ) (rest : List (Bool × List μ)),
+    matchLog f ((false, pool) :: ps) log = some (ms, rest) →
+      ((∀ m ∈ ms, m ∈ pool) ∧ ∃ remaining, rest = (false, remaining) :: ps) ∨
+      (∃ ss cs log', ms = ss ++ cs ∧ (∀ m ∈ ss, m ∈ pool) ∧ (∀ m ∈ pool, m ∈ ss) ∧
+        matchLog f ps log' = some (cs, rest)) := by
+  intro n
+  induction n with
+  | zero =>
+    intro pool hp log ms rest h
+    have : pool = [] := List.length_eq_zero_iff.mp hp
+    subst this
+    rcases matchLog_skip_empty f false ps log ms rest h with ⟨_, rfl, rfl⟩ | h'
+    · exact Or.inl ⟨(fun _ hm => nomatch hm), [], rfl⟩
+    · exact Or.inr ⟨[], ms, log, rfl, (fun _ hm => nomatch hm), (fun _ hm => nomatch hm), h'⟩
+  | succ n ih =>
+    intro pool hp log ms rest h
+    cases pool with
+    | nil => simp at hp
+    | cons p0 pt =>
+      cases log with
+      | nil =>
+        simp only [matchLog, Option.some.injEq, Prod.mk.injEq] at h
+        exact Or.inl ⟨(by rw [← h.1]; exact fun _ hm => nomatch hm), p0 :: pt, h.2.symm⟩
+      | cons s l =>
+        simp only [matchLog, planNext] at h
+        cases ht : takeMatching f s (p0 :: pt) with
+        | none => rw [ht] at h; simp at h
+        | some pr =>
+          obtain ⟨x, restPool⟩ := pr
+          rw [ht] at h
+          simp only [Option.map_some] at h
+          obtain ⟨hx, _, hlen, hmem⟩ := takeMatching_spec f ht
+          cases hm : matchLog f ((false, restPool) :: ps) l with
+          | none => rw [hm] at h; simp at h
+          | some pr2 =>
+            obtain ⟨ms', rest'⟩ := pr2
+            rw [hm] at h
+            simp only [Option.map_some, Option.some.injEq, Prod.mk.injEq] at h
+            obtain ⟨rfl, rfl⟩ := h
+            have hl : restPool.length = n := by
+              simp only [List.length_cons] at hp hlen; omega
+            rcases ih restPool hl l ms' rest' hm with ⟨hsub, rem, hrest⟩ | ⟨ss, cs, log', rfl, h1, h2, h3⟩
+            · refine Or.inl ⟨?_, rem, hrest⟩
+              intro m hmm
+              rcases List.mem_cons.mp hmm with rfl | hmm
+              · exact hx
+              · exact (hmem m).mpr (Or.inr (hsub m hmm))
+            · refine Or.inr ⟨x :: ss, cs, log', rfl, ?_, ?_, h3⟩
+              · intro m hmm
+                rcases List.mem_cons.mp hmm with rfl | hmm
+                · exact hx
+                · exact (hmem m).mpr (Or.inr (h1 m hmm))
+              · intro m hmm
+                rcases (hmem m).mp hmm with rfl | hmm
+                · simp
+                · exact List.mem_cons_of_mem _ (h2 m hmm)
+
+end MatchLog
+
+/-! ## the rsync directory -/
+
+theorem RsyncFs.get?_cons (p : Top × Tree) (fs : RsyncFs) (m : Top) :
+    RsyncFs.get? (p :: fs) m = if m = p.1 then some p.2 else RsyncFs.get? fs m := by
+  unfold RsyncFs.get?
+  rw [List.lookup_cons]
+  by_cases h : m = p.1
+  · simp [h]
+  · have : (m == p.1) = false := by simp [h]
+    simp [this, h]
+
+theorem RsyncFs.get?_remove (fs : RsyncFs) (n m : Top) :
+    (fs.remove n).get? m = if m = n then none else fs.get? m := by
+  induction fs with
+  | nil => simp [RsyncFs.remove, RsyncFs.get?]
+  | cons p t ih =>
+    unfold RsyncFs.remove at ih ⊢
+    rw [List.filter_cons]
+    by_cases hp : p.1 = n
+    · have : (p.1 != n) = false := by simp [hp]
+      simp only [this, Bool.false_eq_true, ↓reduceIte]
+      rw [ih, RsyncFs.get?_cons]
+      by_cases hm : m = n
+      · simp [hm]
+      · have : m ≠ p.1 := by rw [hp]; exact hm
+        simp [hm, this]
+    · have : (p.1 != n) = true := by simp [hp]
+      simp only [this, ↓reduceIte]
+      rw [RsyncFs.get?_cons, RsyncFs.get?_cons, ih]
+      by_cases hm : m = n
+      · subst hm
+        have : m ≠ p.1 := fun e => hp e.symm
+        simp [this]
+      · simp [hm]
+
+theorem RsyncFs.get?_set (fs : RsyncFs) (n m : Top) (t : Tree) :
+    (fs.set n t).get? m = if m = n then some t else fs.get? m := by
+  unfold RsyncFs.set
+  rw [RsyncFs.get?_cons, RsyncFs.get?_remove]
+  by_cases hm : m = n <;> simp [hm]
+
+theorem Tree.get?_cons (p : List String × Raw) (t : Tree) (rel : List String) :
+    Tree.get? (p :: t) rel = if rel = p.1 then some p.2 else Tree.get? t rel := by
+  unfold Tree.get?
+  rw [List.lookup_cons]
+  by_cases h : rel = p.1
+  · simp [h]
+  · have : (rel == p.1) = false := by simp [h]
+    simp [this, h]
+
+theorem Tree.get?_set (t : Tree) (p rel : List String) (r : Raw) :
+    (t.set p r).get? rel = if rel = p then some r else t.get? rel := by
+  unfold Tree.set
+  rw [Tree.get?_cons]
+  by_cases h : rel = p
+  · simp [h]
+  · simp only [h, ↓reduceIte]
+    induction t with
+    | nil => rfl
+    | cons a tl ih =>
+      rw [List.filter_cons]
+      by_cases ha : a.1 = p
+      · have : (a.1 != p) = false := by simp [ha]
+        simp only [this, Bool.false_eq_true, ↓reduceIte]
+        rw [ih, Tree.get?_cons]
+        have : rel ≠ a.1 := by rw [ha]; exact h
+        simp [this]
+      · have : (a.1 != p) = true := by simp [ha]
+        simp only [this, ↓reduceIte]
+        rw [Tree.get?_cons, Tree.get?_cons, ih]
+
+theorem RsyncFs.applyAll_append (fs : RsyncFs) (a b : List RMut) :
+    fs.applyAll (a ++ b) =
+      match fs.applyAll a with
+      | (fs', true) => fs'.applyAll b
+      | (fs', false) => (fs', false) := by
+  induction a generalizing fs with
+  | nil => simp [RsyncFs.applyAll]
+  | cons m ms ih =>
+    simp only [List.cons_append, RsyncFs.applyAll]
+    cases fs.apply m with
+    | none => rfl
+    | some fs' => exact ih fs'
+
+/-- The files of a snapshot determine the content at every relative path. -/
+def FilesFunctional (files : List (List String × Content)) : Prop :=
+  ∀ p ∈ files, ∀ q ∈ files, p.1 = q.1 → p.2 = q.2
+
+/-- Everything in the tree is the clean content of one of the files. -/
+def TreeOk (files : List (List String × Content)) (t : Tree) : Prop :=
+  ∀ rel r, t.get? rel = some r → ∃ c, (rel, c) ∈ files ∧ r = .clean c
+
+/-- Saving files of a functional file list into `tmp`, in any order, with repetitions. -/
+theorem apply_saves (files : List (List String × Content)) (hf : FilesFunctional files)
+    (tmp : Top) : ∀ (ss : List RMut), (∀ m ∈ ss, ∃ p ∈ files, m = .save tmp p.1 p.2) →
+    ∀ (fs : RsyncFs) (t0 : Tree), fs.get? tmp = some t0 → TreeOk files t0 →
+    ∃ fs' t, fs.applyAll ss = (fs', true) ∧ fs'.get? tmp = some t ∧ TreeOk files t ∧
+      (∀ n, n ≠ tmp → fs'.get? n = fs.get? n) ∧
+      (∀ rel r, t0.get? rel = some r → t.get? rel = some r) ∧
+      (∀ p ∈ files, RMut.save tmp p.1 p.2 ∈ ss → t.get? p.1 = some (.clean p.2)) := by
+  intro ss
+  induction ss with
+  | nil =>
+    intro _ fs t0 h0 hok
+    exact ⟨fs, t0, rfl, h0, hok, fun _ _ => rfl, fun _ _ h => h, fun _ _ h => nomatch h⟩
+  | cons m ms ih =>
+    intro hall fs t0 h0 hok
+    obtain ⟨p, hp, rfl⟩ := hall m (by simp)
+    -- one save
+    have hsave : saveOver (t0.get? p.1) p.2 = .clean p.2 := by
+      cases hg : t0.get? p.1 with
+      | none => rfl
+      | some r =>
+        obtain ⟨c, hc, rfl⟩ := hok p.1 r hg
+        have : c = p.2 := hf (p.1, c) hc p hp rfl
+        subst this
+        simp [saveOver]
+    have hstep : fs.apply (.save tmp p.1 p.2) = some (fs.set tmp (t0.set p.1 (.clean p.2))) := by
+      simp only [RsyncFs.apply, h0, hsave]
+    have h1 : (fs.set tmp (t0.set p.1 (.clean p.2))).get? tmp = some (t0.set p.1 (.clean p.2)) := by
+      rw [RsyncFs.get?_set]; simp
+    have hok1 : TreeOk files (t0.set p.1 (.clean p.2)) := by
+      intro rel r hr
+      rw [Tree.get?_set] at hr
+      by_cases hrel : rel = p.1
+      · simp only [hrel, ↓reduceIte, Option.some.injEq] at hr
+        exact ⟨p.2, by rw [hrel]; exact hp, hr.symm⟩
+      · simp only [hrel, ↓reduceIte] at hr
+        exact hok rel r hr
+    obtain ⟨fs', t, happ, hget, hokt, hoth, hmono, hall'⟩ :=
+      ih (fun m hm => hall m (by simp [hm])) _ _ h1 hok1
+    refine ⟨fs', t, ?_, hget, hokt, ?_, ?_, ?_⟩
+    · simp only [RsyncFs.applyAll, hstep]; exact happ
+    · intro n hn
+      rw [hoth n hn, RsyncFs.get?_set]; simp [hn]
+    · intro rel r hr
+      apply hmono
+      rw [Tree.get?_set]
+      by_cases hrel : rel = p.1
+      · simp only [hrel, ↓reduceIte]
+        rw [hrel] at hr
+        obtain ⟨c, hc, rfl⟩ := hok p.1 r hr
+        have : c = p.2 := hf (p.1, c) hc p hp rfl
+        rw [this]
+      · simp only [hrel, ↓reduceIte]; exact hr
+    · intro q hq hmem
+      rcases List.mem_cons.mp hmem with heq | hmem
+      · have hq1 : q.1 = p.1 := by injection heq
+        have hq2 : q.2 = p.2 := by injection heq
+        apply hmono
+        rw [Tree.get?_set, hq1, hq2]; simp
+      · exact hall' q hq hmem
+
+/-- A tree that holds exactly the files is, as a map, the expected tree. -/
+theorem tree_eq_expected {files : List (List String × Content)}
+    {t : Tree} (hok : TreeOk files t) (hall : ∀ p ∈ files, t.get? p.1 = some (.clean p.2))
+    (rel : List String) :
+    t.get? rel = Tree.get? (files.map (fun p => (p.1, Raw.clean p.2))) rel := by
+  have hexp : ∀ (l : List (List String × Content)),
+      Tree.get? (l.map (fun p => (p.1, Raw.clean p.2))) rel =
+        (l.find? (fun p => p.1 == rel)).map (fun p => Raw.clean p.2) := by
+    intro l
+    induction l with
+    | nil => rfl
+    | cons a tl ih =>
+      rw [List.map_cons, Tree.get?_cons, List.find?_cons, ih]
+      by_cases h : rel = a.1
+      · simp [h]
+      · have : (a.1 == rel) = false := by simp; exact fun e => h e.symm
+        simp [h, this]
+  rw [hexp]
+  cases hfind : files.find? (fun p => p.1 == rel) with
+  | some p =>
+    have hm := List.mem_of_find?_eq_some hfind
+    have hr : p.1 = rel := by simpa using List.find?_some hfind
+    rw [← hr]
+    exact hall p hm
+  | none =>
+    simp only [Option.map_none]
+    cases hg : t.get? rel with
+    | none => rfl
+    | some r =>
+      obtain ⟨c, hc, _⟩ := hok rel r hg
+      have := List.find?_eq_none.mp hfind (rel, c) hc
+      simp at this
+
+/-- The three phases of `RsyncdStore::write`. -/
+def rsyncSaves (base : Uri) (serial : Nat) (objs : Objs) : List RMut :=
+  (rsyncFiles base objs).map (fun p => .save (.tmp serial) p.1 p.2)
+
+def rsyncTail (fs : RsyncFs) (serial : Nat) : List RMut :=
+  (if (fs.get? .current).isSome then [.rename .current .old] else []) ++
+    [.rename (.tmp serial) .current] ++
+    (if ((fs.get? .current).isSome || (fs.get? .old).isSome) then [.removeAll .old] else [])
+
+theorem rsyncPlan_eq (fs : RsyncFs) (base : Uri) (serial : Nat) (objs : Objs) :
+    rsyncPlan fs base serial objs =
+      [(true, [.mkdir (.tmp serial)]), (false, rsyncSaves base serial objs),
+       (true, rsyncTail fs serial)] := rfl
+
+theorem rsyncTail_ne_nil (fs : RsyncFs) (serial : Nat) : rsyncTail fs serial ≠ [] := by
+  unfold rsyncTail
+  intro h
+  have := congrArg List.length h
+  simp only [List.length_append, List.length_cons, List.length_nil] at this
+  omega
+
+/-- A complete run of the rsync writer: create the directory, save all files in some order,
+then the renames and the removal. -/
+theorem rsync_complete_shape {fs : RsyncFs} {base : Uri} {serial : Nat} {objs : Objs}
+    {log : List Sig} {ms : List RMut} {rest : List (Bool × List RMut)}
+    (hm : matchLog RMut.sig (rsyncPlan fs base serial objs) log = some (ms, rest))
+    (hd : planDone rest = true) :
+    ∃ ss, ms = [.mkdir (.tmp serial)] ++ ss ++ rsyncTail fs serial ∧
+      (∀ m ∈ ss, m ∈ rsyncSaves base serial objs) ∧ (∀ m ∈ rsyncSaves base serial objs, m ∈ ss) := by
+  rw [rsyncPlan_eq] at hm
+  have htail := rsyncTail_ne_nil fs serial
+  have notDone : ∀ (pre : List (Bool × List RMut)),
+      planDone (pre ++ [(true, rsyncTail fs serial)]) = false := by
+    intro pre
+    simp only [planDone, List.all_append, List.all_cons, List.all_nil, Bool.and_true]
+    cases ht : rsyncTail fs serial with
+    | nil => exact absurd ht htail
+    | cons a t => simp
+  rcases matchLog_ordered RMut.sig _ _ _ _ _ hm with ⟨n, _, _, hrest⟩ | ⟨cs, log1, rfl, hcs⟩
+  · rw [hrest] at hd
+    have := notDone [(true, [RMut.mkdir (.tmp serial)].drop n), (false, rsyncSaves base serial objs)]
+    simp only [List.cons_append, List.nil_append] at this
+    rw [this] at hd; cases hd
+  · rcases matchLog_unordered RMut.sig _ _ _ rfl _ _ _ hcs with
+      ⟨_, rem, hrest⟩ | ⟨ss, cs2, log2, rfl, h1, h2, hcs2⟩
+    · rw [hrest] at hd
+      have := notDone [(false, rem)]
+      simp only [List.cons_append, List.nil_append] at this
+      rw [this] at hd; cases hd
+    · refine ⟨ss, ?_, h1, h2⟩
+      rcases matchLog_ordered RMut.sig _ _ _ _ _ hcs2 with ⟨n, hn, rfl, hrest⟩ | ⟨cs3, log3, rfl, hcs3⟩
+      · rw [hrest] at hd
+        simp only [planDone, List.all_cons, List.all_nil, Bool.and_true, List.isEmpty_iff] at hd
+        have hlen : (rsyncTail fs serial).length ≤ n := by
+          have := congrArg List.length hd
+          simp only [List.length_drop, List.length_nil] at this
+          omega
+        rw [List.take_of_length_le hlen]
+        simp
+      · obtain ⟨rfl, _⟩ := matchLog_nil_plan RMut.sig hcs3
+        simp
+
+theorem applyAll_cons_some {fs fs' : RsyncFs} {m : RMut} (h : fs.apply m = some fs')
+    (ms : List RMut) : fs.applyAll (m :: ms) = fs'.applyAll ms := by
+  simp only [RsyncFs.applyAll, h]
+
+theorem applyAll_cons_none {fs : RsyncFs} {m : RMut} (h : fs.apply m = none)
+    (ms : List RMut) : fs.applyAll (m :: ms) = (fs, false) := by
+  simp only [RsyncFs.applyAll, h]
+
+theorem apply_removeAll (fs : RsyncFs) (n : Top) : fs.apply (.removeAll n) = some (fs.remove n) := rfl
+
+/-- The renames and the removal, on a directory where `tmp-<serial>` holds the new tree and
+`current` and a non-empty `old` are not both present. -/
+theorem rsync_tail_ok {fs fs2 : RsyncFs} {serial : Nat} {t : Tree}
+    (htmp : fs2.get? (.tmp serial) = some t)
+    (hoth : ∀ n, n ≠ .tmp serial → fs2.get? n = fs.get? n)
+    (hold : fs.get? .current = none ∨ fs.get? .old = none ∨ fs.get? .old = some []) :
+    ∃ fs5, fs2.applyAll (rsyncTail fs serial) = (fs5, true) ∧
+      fs5.get? .current = some t ∧ fs5.get? .old = none ∧ fs5.get? (.tmp serial) = none := by
+  have hc2 : fs2.get? .current = fs.get? .current := hoth _ (by simp)
+  have ho2 : fs2.get? .old = fs.get? .old := hoth _ (by simp)
+  unfold rsyncTail
+  cases hcur : fs.get? .current with
+  | some tc =>
+    simp only [Option.isSome_some, ↓reduceIte, Bool.true_or, List.cons_append, List.nil_append]
+    have holdok : fs.get? .old = none ∨ fs.get? .old = some [] := by
+      rcases hold with h | h | h
+      · rw [hcur] at h; cases h
+      · exact Or.inl h
+      · exact Or.inr h
+    have h1 : fs2.apply (.rename .current .old) = some ((fs2.remove .current).set .old tc) := by
+      simp only [RsyncFs.apply, hc2, hcur, ho2]
+      rcases holdok with h | h <;> rw [h]
+    have h2 : ((fs2.remove .current).set .old tc).apply (.rename (.tmp serial) .current) =
+        some ((((fs2.remove .current).set .old tc).remove (.tmp serial)).set .current t) := by
+      have ha : ((fs2.remove .current).set .old tc).get? (.tmp serial) = some t := by
+        rw [RsyncFs.get?_set, RsyncFs.get?_remove]; simp [htmp]
+      have hb : ((fs2.remove .current).set .old tc).get? .current = none := by
+        rw [RsyncFs.get?_set, RsyncFs.get?_remove]; simp
+      simp only [RsyncFs.apply, ha, hb]
+    refine ⟨((((fs2.remove .current).set .old tc).remove (.tmp serial)).set .current t).remove .old,
+      ?_, ?_, ?_, ?_⟩
+    · rw [applyAll_cons_some h1, applyAll_cons_some h2, applyAll_cons_some (apply_removeAll _ _)]
+      rfl
+    · rw [RsyncFs.get?_remove, RsyncFs.get?_set]; simp
+    · rw [RsyncFs.get?_remove]; simp
+    · rw [RsyncFs.get?_remove, RsyncFs.get?_set, RsyncFs.get?_remove]; simp
+  | none =>
+    simp only [Option.isSome_none, Bool.false_eq_true, ↓reduceIte, Bool.false_or,
+      List.nil_append, List.cons_append]
+    have h1 : fs2.apply (.rename (.tmp serial) .current) =
+        some ((fs2.remove (.tmp serial)).set .current t) := by
+      simp only [RsyncFs.apply, htmp, hc2, hcur]
+    cases hol : fs.get? .old with
+    | none =>
+      simp only [Option.isSome_none, Bool.false_eq_true, ↓reduceIte]
+      refine ⟨(fs2.remove (.tmp serial)).set .current t, ?_, ?_, ?_, ?_⟩
+      · rw [applyAll_cons_some h1]; rfl
+      · rw [RsyncFs.get?_set]; simp
+      · rw [RsyncFs.get?_set, RsyncFs.get?_remove]; simp [ho2, hol]
+      · rw [RsyncFs.get?_set, RsyncFs.get?_remove]; simp
+    | some to =>
+      simp only [Option.isSome_some, ↓reduceIte]
+      refine ⟨((fs2.remove (.tmp serial)).set .current t).remove .old, ?_, ?_, ?_, ?_⟩
+      · rw [applyAll_cons_some h1, applyAll_cons_some (apply_removeAll _ _)]; rfl
+      · rw [RsyncFs.get?_remove, RsyncFs.get?_set]; simp
+      · rw [RsyncFs.get?_remove]; simp
+      · rw [RsyncFs.get?_remove, RsyncFs.get?_set, RsyncFs.get?_remove]; simp
+
+/-- The top-level directories a mutation can change. -/
+def RMut.touches : RMut → Top → Bool
+  | .mkdir n, m => n == m
+  | .save n _ _, m => n == m
+  | .rename a b, m => a == m || b == m
+  | .removeAll n, m => n == m
+
+theorem apply_other {fs fs' : RsyncFs} {m : RMut} {n : Top} (h : fs.apply m = some fs')
+    (hn : m.touches n = false) : fs'.get? n = fs.get? n := by
+  cases m with
+  | mkdir a =>
+    simp only [RMut.touches, beq_eq_false_iff_ne, ne_eq] at hn
+    simp only [RsyncFs.apply] at h
+    cases hg : fs.get? a with
+    | some t => rw [hg] at h; simp only [Option.some.injEq] at h; rw [← h]
+    | none =>
+      rw [hg] at h; simp only [Option.some.injEq] at h
+      rw [← h, RsyncFs.get?_set]
+      have : n ≠ a := fun e => hn e.symm
+      simp [this]
+  | save a rel c =>
+    simp only [RMut.touches, beq_eq_false_iff_ne, ne_eq] at hn
+    simp only [RsyncFs.apply] at h
+    cases hg : fs.get? a with
+    | none => rw [hg] at h; cases h
+    | some t =>
+      rw [hg] at h; simp only [Option.some.injEq] at h
+      rw [← h, RsyncFs.get?_set]
+      have : n ≠ a := fun e => hn e.symm
+      simp [this]
+  | rename a b =>
+    simp only [RMut.touches, Bool.or_eq_false_iff, beq_eq_false_iff_ne, ne_eq] at hn
+    simp only [RsyncFs.apply] at h
+    cases hg : fs.get? a with
+    | none => rw [hg] at h; cases h
+    | some t =>
+      rw [hg] at h
+      have hna : n ≠ a := fun e => hn.1 e.symm
+      have hnb : n ≠ b := fun e => hn.2 e.symm
+      have key : ((fs.remove a).set b t).get? n = fs.get? n := by
+        rw [RsyncFs.get?_set, RsyncFs.get?_remove]; simp [hna, hnb]
+      cases hb : fs.get? b with
+      | none => rw [hb] at h; simp only [Option.some.injEq] at h; rw [← h]; exact key
+      | some tb =>
+        rw [hb] at h
+        cases tb with
+        | nil => simp only [Option.some.injEq] at h; rw [← h]; exact key
+        | cons y ys => cases h
+  | removeAll a =>
+    simp only [RMut.touches, beq_eq_false_iff_ne, ne_eq] at hn
+    simp only [RsyncFs.apply, Option.some.injEq] at h
+    rw [← h, RsyncFs.get?_remove]
+    have : n ≠ a := fun e => hn e.symm
+    simp [this]
+
+/-- Mutations leave alone the directories they do not name (also when one of them fails). -/
+theorem applyAll_other (fs : RsyncFs) (ms : List RMut) (n : Top)
+    (h : ∀ m ∈ ms, m.touches n = false) : (fs.applyAll ms).1.get? n = fs.get? n := by
+  induction ms generalizing fs with
+  | nil => rfl
+  | cons m t ih =>
+    simp only [RsyncFs.applyAll]
+    cases ha : fs.apply m with
+    | none => rfl
+    | some fs' =>
+      simp only
+      rw [ih fs' (fun x hx => h x (by simp [hx])), apply_other ha (h m (by simp))]
+
+theorem planNext_mem {μ : Type} (f : μ → Sig) {s : Sig} :
+    ∀ {plan : List (Bool × List μ)} {m : μ} {plan' : List (Bool × List μ)},
+    planNext f s plan = some (m, plan') →
+      (∃ ph ∈ plan, m ∈ ph.2) ∧ ∀ ph' ∈ plan', ∀ x ∈ ph'.2, ∃ ph ∈ plan, x ∈ ph.2 := by
+  intro plan
+  induction plan with
+  | nil => intro m plan' h; simp [planNext] at h
+  | cons ph ps ih =>
+    intro m plan' h
+    obtain ⟨b, l⟩ := ph
+    cases l with
+    | nil =>
+      simp only [planNext] at h
+      obtain ⟨⟨ph, hph, hm⟩, hrest⟩ := ih h
+      exact ⟨⟨ph, by simp [hph], hm⟩, fun ph' hp' x hx => by
+        obtain ⟨q, hq, hxq⟩ := hrest ph' hp' x hx
+        exact ⟨q, by simp [hq], hxq⟩⟩
+    | cons a t =>
+      cases b with
+      | true =>
+        simp only [planNext] at h
+        by_cases hfa : (f a == s) = true
+        · rw [if_pos hfa] at h
+          simp only [Option.some.injEq, Prod.mk.injEq] at h
+          obtain ⟨rfl, rfl⟩ := h
+          refine ⟨⟨(true, a :: t), by simp, by simp⟩, ?_⟩
+          intro ph' hp' x hx
+          rcases List.mem_cons.mp hp' with rfl | hp'
+          · exact ⟨(true, a :: t), by simp, by simp [hx]⟩
+          · exact ⟨ph', by simp [hp'], hx⟩
+        · rw [if_neg hfa] at h; cases h
+      | false =>
+        simp only [planNext] at h
+        cases ht : takeMatching f s (a :: t) with
+        | none => rw [ht] at h; simp at h
+        | some pr =>
+          obtain ⟨x0, rest0⟩ := pr
+          rw [ht] at h
+          simp only [Option.map_some, Option.some.injEq, Prod.mk.injEq] at h
+          obtain ⟨rfl, rfl⟩ := h
+          obtain ⟨hx0, _, _, hmem⟩ := takeMatching_spec f ht
+          refine ⟨⟨(false, a :: t), by simp, hx0⟩, ?_⟩
+          intro ph' hp' x hx
+          rcases List.mem_cons.mp hp' with rfl | hp'
+          · exact ⟨(false, a :: t), by simp, (hmem x).mpr (Or.inr hx)⟩
+          · exact ⟨ph', by simp [hp'], hx⟩
+
+/-- Every mutation read from a log is a mutation of the plan. -/
+theorem matchLog_mem {μ : Type} (f : μ → Sig) : ∀ {log : List Sig} {plan : List (Bool × List μ)}
+    {ms : List μ} {rest : List (Bool × List μ)}, matchLog f plan log = some (ms, rest) →
+    ∀ m ∈ ms, ∃ ph ∈ plan, m ∈ ph.2 := by
+  intro log
+  induction log with
+  | nil =>
+    intro plan ms rest h
+    simp only [matchLog, Option.some.injEq, Prod.mk.injEq] at h
+    rw [← h.1]
+    exact fun _ hm => nomatch hm
+  | cons s l ih =>
+    intro plan ms rest h
+    simp only [matchLog] at h
+    cases hn : planNext f s plan with
+    | none => rw [hn] at h; cases h
+    | some pr =>
+      obtain ⟨m0, plan'⟩ := pr
+      rw [hn] at h
+      simp only at h
+      cases hm : matchLog f plan' l with
+      | none => rw [hm] at h; simp at h
+      | some pr2 =>
+        obtain ⟨ms', rest'⟩ := pr2
+        rw [hm] at h
+        simp only [Option.map_some, Option.some.injEq, Prod.mk.injEq] at h
+        obtain ⟨rfl, rfl⟩ := h
+        obtain ⟨h0, hrest⟩ := planNext_mem f hn
+        intro m hmm
+        rcases List.mem_cons.mp hmm with rfl | hmm
+        · exact h0
+        · obtain ⟨ph', hp', hx⟩ := ih hm m hmm
+          exact hrest ph' hp' m hx
+
 end KM.Pubd
